@@ -34,6 +34,9 @@ pub trait GroupApi: Copy + Send + 'static {
     fn set_cond(d: &mut Self, a: &Self, ctl: u32);
     fn select(a0: &Self, a1: &Self, ctl: u32) -> Self;
     fn set_condneg(d: &mut Self, ctl: u32) -> bool;
+    /// GLS254: endomorphism and the scalar split along it: (|k0|, sgn k0, |k1|, sgn k1)
+    fn zeta(_a: Self, _neg: u32) -> Option<Self> { None }
+    fn split_mu(_k: &[u8], _odd: bool) -> Option<(u128, u32, u128, u32)> { None }
     /// structure tests of the plain Edwards curves
     fn has_low_order(_a: Self) -> Option<u32> { None }
     fn is_in_subgroup(_a: Self) -> Option<u32> { None }
@@ -358,6 +361,11 @@ impl GroupApi for crrl::gls254::Point {
             _ => { let mut r = a; r.set_mul64mu_add_mulgen_vartime(u0, u1, &sw); r }
         })
     }
+    fn zeta(a: Self, neg: u32) -> Option<Self> { Some(a.zeta(neg)) }
+    fn split_mu(k: &[u8], odd: bool) -> Option<(u128, u32, u128, u32)> {
+        let s = crrl::gls254::Scalar::decode_reduce(k);
+        Some(if odd { crrl::gls254::Point::split_mu_odd(&s) } else { crrl::gls254::Point::split_mu(&s) })
+    }
     fn special_encodings() -> Vec<Vec<u8>> {
         let mut one = vec![0u8; 32]; one[0] = 1;
         let mut u = vec![0u8; 32]; u[16] = 1;
@@ -514,6 +522,24 @@ impl<'a, G: GroupApi> Mach<'a, G> {
             Err(m) => e.s("panic", &m),
         };
         self.tr.emit(e);
+    }
+    fn zeta(&mut self, dst: usize, a: usize, neg: u32) -> bool {
+        let x = self.regs[a];
+        let e = Ev::new("zeta").n("a", a as i64).st("ctl", neg);
+        match guarded(move || G::zeta(x, neg)) {
+            Ok(None) => true,
+            Ok(Some(p)) => self.put(dst, e, Ok(p)),
+            Err(m) => self.put(dst, e, Err(m)),
+        }
+    }
+    fn split_mu(&mut self, k: &[u8], odd: bool) {
+        let kk = k.to_vec();
+        let e = Ev::new(if odd { "split_mu_odd" } else { "split_mu" }).b("k", k);
+        match guarded(move || G::split_mu(&kk, odd)) {
+            Ok(None) => {}
+            Ok(Some((n0, s0, n1, s1))) => self.tr.emit(e.b("n0", &n0.to_le_bytes()).st("s0", s0).b("n1", &n1.to_le_bytes()).st("s1", s1)),
+            Err(m) => self.tr.emit(e.s("panic", &m)),
+        }
     }
     fn structure(&mut self, a: usize) {
         let x = self.regs[a];
@@ -1142,6 +1168,22 @@ fn run_coords<G: GroupApi>(tr: &mut Trace, rng: &mut Rng, plan: &Plan) {
     }
 }
 
+/// GLS254 endomorphism: zeta on special / generic points (both signs), split_mu / split_mu_odd on
+/// the scalar classes and on the lattice-derived boundary scalars.
+fn run_endo<G: GroupApi>(tr: &mut Trace, rng: &mut Rng, plan: &Plan) {
+    if G::split_mu(&[0u8; 32], false).is_none() { return; }
+    let mut m = Mach::<G>::new(tr);
+    let sp = G::special_encodings();
+    let mut ok = m.cst(0, "NEUTRAL") && m.cst(1, "BASE") && m.mulgen(2, &rng.bytes(G::SC_LEN), 0);
+    for e in sp.iter() { ok = ok && m.decode(3, e) && m.zeta(4, 3, 0) && m.zeta(5, 3, 0xFFFFFFFF) && m.bin("add", 6, 3, 2, 0) && m.zeta(7, 6, 0); }
+    for r in [0usize, 1, 2] { ok = ok && m.zeta(4, r, 0) && m.zeta(5, r, 0xFFFFFFFF) && m.zeta(6, 4, 0) && m.bin("add", 7, 6, r, 0); if ok { m.isneutral(7); } }
+    for _ in 0..plan.scripts { ok = ok && m.mulgen(3, &rng.bytes(G::SC_LEN), 1) && m.zeta(4, 3, if rng.chance(1, 2) { 0 } else { 0xFFFFFFFF }); }
+    for k in scalar_classes::<G>(rng, plan.scalars) {
+        m.split_mu(&k, false);
+        m.split_mu(&k, true);
+    }
+}
+
 /// x-only sequences (P-256): runs through the point at infinity, through the points with x = 0,
 /// with Q = infinity, Q of x = 0, P0 or P1 infinity, every n in 0..=plan.len.
 fn run_xseq<G: GroupApi>(tr: &mut Trace, rng: &mut Rng, plan: &Plan) {
@@ -1204,6 +1246,7 @@ pub fn run_type<G: GroupApi>(tr: &mut Trace, rng: &mut Rng, what: &str, plan: &P
             "codec" => run_codec::<G>(tr, rng, plan),
             "coords" => run_coords::<G>(tr, rng, plan),
             "xseq" => run_xseq::<G>(tr, rng, plan),
+            "endo" => run_endo::<G>(tr, rng, plan),
             _ => panic!("unknown group sub-domain {}", w),
         }
     }
